@@ -517,7 +517,11 @@ theorem elispChar_hex (f c : Nat) (s : St) (rest : List UInt8) (hc : isScalar c 
   rw [elispHex_digits c (isScalar_lt hc) (f + 1) _ rest (by simp [hrest])]
   rw [elispHex_end f c _ rest (by rw [adv_adv, adv_rest]; exact drop_add_left (by simp [hrest]))
     hF (by simpa using hf)]
-  simp [asChar, hc]
+  have hsur : Utf8.isSurrogate c = false := by
+    unfold isScalar at hc
+    simp only [Bool.and_eq_true, Bool.not_eq_true'] at hc
+    exact hc.2
+  simp [asEscapedChar, asChar, hc, hsur]
 
 theorem elispChar_aux (cfg : Cfg) (fuel : Nat) (c : Nat) (rest : List UInt8) (s : St)
     (ho : cfg.opts.char = .elisp) (hc : isScalar c = true)
